@@ -13,6 +13,7 @@ CONSTANTS
   Srvs = {1, 2}
   Ots <- OtsAll
   Coes <- CoesAll
+  Flts <- FltsAll
   SharedContextTable = FALSE
   ExpireSessions = FALSE
   RandArgs = TRUE
